@@ -13,254 +13,24 @@
 (* invariant (C07, C08, C09, C10, C19).  WindowInv is the structural       *)
 (* invariant the cyclic order rests on.                                    *)
 (***************************************************************************)
-EXTENDS SeqAbs
+EXTENDS TimersOps
 
 CONSTANTS
   MaxOps,        \* number of API operations per behaviour
   MaxTimers,     \* timers created per behaviour
   AddOffsets,    \* durations <<s, ns>> added to / subtracted from now() to form expiry instants
   RunOffsets,    \* durations by which run() advances (or, negated, goes back)
-  Kinds,         \* subset of {"fixed", "max", "min"}
-  ClampModMin    \* TRUE: mod_min clamps like add_min (the tree after the fix: commit); FALSE: the pinned tree
+  Kinds          \* subset of {"fixed", "max", "min"}
 
 VARIABLES tm, mon, bad, hist
 
 vars == <<tm, mon, bad, hist>>
-
-SubBase == 65536          \* 1 << 16
-SubMax == 61036           \* sub values 0..61035 are normal; 61036 only from rounding up
-HS == 32767               \* 0x7FFF
-WrapS == 65536            \* seconds in one turn of the 32-bit cyclic time
-FixedBase == 1000000      \* stands for the 0x8000_0000 flag of fixed-timer slots
-
-(* ------------------------------ Time ------------------------------ *)
-TCeil(i) == IF i[1] < 0 THEN <<0, 0>> ELSE <<i[1], (i[2] + TickNs - 1) \div TickNs>>
-TFloor(i) == IF i[1] < 0 THEN <<0, 0>> ELSE <<i[1], i[2] \div TickNs>>
-TLt(a, b) == a[1] < b[1] \/ (a[1] = b[1] /\ a[2] < b[2])
-TLe(a, b) == ~TLt(b, a)
-TMx(a, b) == IF TLt(a, b) THEN b ELSE a
-TMn(a, b) == IF TLt(a, b) THEN a ELSE b
-TAddSecs(t, n) == <<t[1] + n, t[2]>>
-TInc(t) == <<t[1], t[2] + 1>>
-TInstant(t) == LET ns == t[2] * TickNs
-               IN IF ns >= NsPerSec THEN <<t[1] + 1, ns - NsPerSec>> ELSE <<t[1], ns>>
-
-(* ---------------------------- WrapTime ---------------------------- *)
-Wt(t) == <<t[1] % WrapS, t[2]>>
-\* sign of (a - b) taken as a 32-bit signed number
-WCmp(a, b) ==
-  LET du0 == a[2] - b[2]
-      ds0 == (a[1] - b[1]) % WrapS
-      du == IF du0 < 0 THEN du0 + SubBase ELSE du0
-      ds == IF du0 < 0 THEN (ds0 - 1) % WrapS ELSE ds0
-  IN IF ds = 0 /\ du = 0 THEN 0 ELSE IF ds >= WrapS \div 2 THEN -1 ELSE 1
-\* WrapTime::time(base)
-WtTime(w, base) ==
-  LET val == <<base[1] - (base[1] % WrapS) + w[1], w[2]>>
-  IN IF TLt(val, base) THEN <<val[1] + WrapS, val[2]>> ELSE val
-
-KeyLt(k1, k2) == WCmp(k1.wt, k2.wt) < 0 \/ (WCmp(k1.wt, k2.wt) = 0 /\ k1.slot < k2.slot)
-
-(* ------------------------- rounded_75point ------------------------ *)
-Pow2(n) == 2 ^ n
-Bits(v) == CHOOSE b \in 1..31 : Pow2(b - 1) <= v /\ (b = 31 \/ v < Pow2(b))
-CeilMult(v, m) == ((v + m - 1) \div m) * m
-\* t plus a non-negative number of sub units (carry into seconds at SubBase)
-TAddUnits(t, n) == LET u == t[2] + n IN <<t[1] + (u \div SubBase), u % SubBase>>
-
-R75Ok(t0, t1) == TLe(t0, t1)        \* the code computes t1 - t0 unsigned: panics / wraps otherwise
-R75(t0, t1) ==
-  LET gs0 == t1[1] - t0[1]
-      gu0 == t1[2] - t0[2]
-      gap == IF gu0 < 0 THEN (gs0 - 1) * SubBase + gu0 + SubBase ELSE gs0 * SubBase + gu0
-  IN IF gap < SubBase \div 2 THEN t1
-     ELSE
-     LET off == 3 * (gap \div 4) + (3 * (gap % 4)) \div 4
-         p75 == TAddUnits(t0, off)
-         rb == Bits(gap) - 4                   \* round == 2^rb - 1
-         rv == IF rb <= 16
-               THEN LET u == CeilMult(p75[2], Pow2(rb))
-                    IN IF u >= SubBase THEN <<p75[1] + 1, u - SubBase>> ELSE <<p75[1], u>>
-               ELSE LET m == Pow2(rb - 16)
-                        s == IF p75[2] = 0 THEN p75[1] ELSE p75[1] + 1
-                    IN <<CeilMult(s, m), 0>>
-     IN IF rv[2] >= SubMax THEN <<rv[1] + 1, 0>> ELSE rv
-
-(* ----------------------------- state ------------------------------ *)
-\* tm: [now (Time), cnow (Instant, core.now), queue (set of [wt, slot, cb]),
-\*      var (seq of [gnn, kind, expiry, curr, next]), free (0 = None, else slot+1),
-\*      seq, keys (tid -> [ty, slot, g]), n (ops done), nt (timers made), nid (next item id),
-\*      evs, panicked]
-TmInit ==
-  [ now |-> <<0, 0>>, cnow |-> <<0, 0>>, queue |-> {}, var |-> << >>, free |-> 0, seq |-> 0,
-    keys |-> << >>, n |-> 0, nt |-> 0, nid |-> 1, evs |-> << >>, panicked |-> FALSE ]
 
 Init ==
   /\ tm = TmInit
   /\ mon = [Init0({}) EXCEPT !.alive = "live"]
   /\ bad = {}
   /\ hist = << >>
-
-Emit(s, e) == [s EXCEPT !.evs = Append(@, e)]
-
-AllocSlot(s, item) ==
-  \* returns [s, slot, g]
-  IF s.free # 0
-  THEN LET i == s.free IN
-       [s |-> [s EXCEPT !.free = s.var[i].next, !.var[i] = [item EXCEPT !.gnn = s.var[i].gnn]],
-        slot |-> i - 1, g |-> s.var[i].gnn]
-  ELSE [s |-> [s EXCEPT !.var = Append(@, [item EXCEPT !.gnn = 1])], slot |-> Len(s.var), g |-> 1]
-
-FreeSlot(s, slot) ==
-  LET i == slot + 1 IN
-  [s EXCEPT !.var[i] = [gnn |-> s.var[i].gnn + 1, kind |-> "free", expiry |-> <<0, 0>>, curr |-> <<0, 0>>, next |-> s.free],
-            !.free = i]
-
-VarItem(kind, expiry, curr) == [gnn |-> 0, kind |-> kind, expiry |-> expiry, curr |-> curr, next |-> 0]
-
-QIns(s, wt, slot, cb) == [s EXCEPT !.queue = @ \cup {[wt |-> wt, slot |-> slot, cb |-> cb]}]
-QRem(s, wt, slot) == [s EXCEPT !.queue = {e \in @ : ~(e.wt = wt /\ e.slot = slot)}]
-QGet(s, wt, slot) == {e \in s.queue : e.wt = wt /\ e.slot = slot}
-
-(* --------------------------- Timers methods ------------------------ *)
-AddMax(s, inst, cb) ==
-  LET expiry == TCeil(inst)
-      curr == TMn(TMx(expiry, TInc(s.now)), TAddSecs(s.now, HS))
-      a == AllocSlot(s, VarItem("max", expiry, curr))
-  IN [s |-> QIns(a.s, Wt(curr), a.slot, cb), key |-> [ty |-> "max", slot |-> a.slot, g |-> a.g]]
-
-AddFixed(s, inst, cb) ==
-  LET expiry == TMx(TCeil(inst), TInc(s.now)) IN
-  IF TLe(TAddSecs(s.now, HS), expiry)
-  THEN LET r == AddMax(s, inst, cb) IN [s |-> r.s, key |-> [r.key EXCEPT !.ty = "fixedmax"]]
-  ELSE LET sq == s.seq + 1 IN
-       [s |-> QIns([s EXCEPT !.seq = sq], Wt(expiry), FixedBase + sq, cb),
-        key |-> [ty |-> "fixed", slot |-> FixedBase + sq, g |-> Wt(expiry)]]
-
-AddMin(s, inst, cb) ==
-  LET expiry == TCeil(inst)
-      t0 == TInc(s.now)
-      t1 == TMn(TMx(expiry, t0), TAddSecs(s.now, HS))
-      curr == R75(t0, t1)
-      a == AllocSlot(s, VarItem("min", expiry, curr))
-  IN [s |-> QIns(a.s, Wt(curr), a.slot, cb), key |-> [ty |-> "min", slot |-> a.slot, g |-> a.g]]
-
-SlotLive(s, key, kind) ==
-  key.slot + 1 <= Len(s.var) /\ s.var[key.slot + 1].gnn = key.g /\ s.var[key.slot + 1].kind = kind
-
-ModMax(s, key, inst) ==
-  IF SlotLive(s, key, "max")
-  THEN [s |-> [s EXCEPT !.var[key.slot + 1].expiry = TMx(@, TCeil(inst))], res |-> TRUE]
-  ELSE [s |-> s, res |-> FALSE]
-
-DelVar(s, key, kind) ==
-  IF SlotLive(s, key, kind)
-  THEN [s |-> FreeSlot(QRem(s, Wt(s.var[key.slot + 1].curr), key.slot), key.slot), res |-> TRUE]
-  ELSE [s |-> s, res |-> FALSE]
-
-DelFixed(s, key) ==
-  IF QGet(s, key.g, key.slot) # {} THEN [s |-> QRem(s, key.g, key.slot), res |-> TRUE]
-  ELSE [s |-> s, res |-> FALSE]
-
-VarActive(s, key) == key.slot + 1 <= Len(s.var) /\ s.var[key.slot + 1].gnn = key.g
-
-ModMin(s, key, inst) ==
-  LET expiry == TCeil(inst) IN
-  IF ~SlotLive(s, key, "min") THEN [s |-> s, res |-> FALSE]
-  ELSE LET vt == s.var[key.slot + 1] IN
-       IF ~TLt(expiry, vt.expiry) THEN [s |-> s, res |-> TRUE]
-       ELSE IF ~TLt(expiry, vt.curr)
-       THEN [s |-> [s EXCEPT !.var[key.slot + 1].expiry = expiry], res |-> TRUE]
-       ELSE \* delete the standing entry and queue a new one
-            LET old == QGet(s, Wt(vt.curr), key.slot)
-                cb == (CHOOSE e \in old : TRUE).cb
-                t0 == TInc(s.now)
-                t1 == IF ClampModMin THEN TMn(TMx(expiry, t0), TAddSecs(s.now, HS)) ELSE TMn(expiry, TAddSecs(s.now, HS))
-                curr == R75(t0, t1)
-                s1 == QRem(s, Wt(vt.curr), key.slot)
-                s2 == [s1 EXCEPT !.var[key.slot + 1].expiry = expiry, !.var[key.slot + 1].curr = curr]
-            IN IF old = {} \/ ~R75Ok(t0, t1)
-               THEN [s |-> [s EXCEPT !.panicked = TRUE], res |-> TRUE]
-               ELSE [s |-> QIns(s2, Wt(curr), key.slot, cb), res |-> TRUE]
-
-NextExpiry(s) ==
-  IF s.queue = {} THEN [has |-> FALSE, x |-> <<0, 0>>]
-  ELSE LET k == CHOOSE e \in s.queue : \A f \in s.queue : f = e \/ KeyLt(e, f)
-       IN [has |-> TRUE, x |-> TInstant(WtTime(k.wt, s.now))]
-
-\* one entry of `head` processed by the advance loop; fired is a sequence of cbs
-ProcessEntry(acc, e, target) ==
-  LET s == acc.s IN
-  IF e.slot >= FixedBase THEN [s |-> s, fired |-> Append(acc.fired, e.cb)]
-  ELSE LET vt == s.var[e.slot + 1] IN
-       IF vt.kind = "free" THEN [s |-> [s EXCEPT !.panicked = TRUE], fired |-> acc.fired]
-       ELSE IF TLe(vt.expiry, target)
-       THEN [s |-> FreeSlot(s, e.slot), fired |-> Append(acc.fired, e.cb)]
-       ELSE IF vt.kind = "max"
-       THEN LET curr == TMn(vt.expiry, TAddSecs(s.now, HS)) IN
-            [s |-> QIns([s EXCEPT !.var[e.slot + 1].curr = curr], Wt(curr), e.slot, e.cb), fired |-> acc.fired]
-       ELSE LET t1 == TMn(vt.expiry, TAddSecs(s.now, HS))
-                curr == R75(s.now, t1) IN
-            IF ~R75Ok(s.now, t1) THEN [s |-> [s EXCEPT !.panicked = TRUE], fired |-> acc.fired]
-            ELSE [s |-> QIns([s EXCEPT !.var[e.slot + 1].curr = curr], Wt(curr), e.slot, e.cb), fired |-> acc.fired]
-
-RECURSIVE AdvanceLoop(_, _, _)
-AdvanceLoop(s, target, fired) ==
-  IF ~TLt(s.now, target) \/ s.panicked THEN [s |-> s, fired |-> fired]
-  ELSE LET now1 == TMn(TAddSecs(s.now, HS), target)
-           lim == TInc(Wt(now1))
-           head == {e \in s.queue : WCmp(e.wt, lim) < 0}
-           hs == SetToSortSeq(head, KeyLt)
-           s1 == [s EXCEPT !.queue = @ \ head, !.now = now1]
-           r == FoldSeq(LAMBDA e, acc : ProcessEntry(acc, e, target), [s |-> s1, fired |-> fired], hs)
-       IN AdvanceLoop(r.s, target, r.fired)
-
-(* ------------------------ API operations + events ------------------ *)
-InstPlus(i, dd) == AddDur(i, dd)
-InstMinus(i, dd) ==
-  IF i[2] >= dd[2] THEN <<i[1] - dd[1], i[2] - dd[2]>> ELSE <<i[1] - dd[1] - 1, i[2] + NsPerSec - dd[2]>>
-
-NexpEv(s) == LET x == NextExpiry(s) IN [e |-> "nexp", has |-> x.has, x |-> x.x]
-
-KindOfKey(k) == IF k.ty = "fixedmax" THEN "fixed" ELSE k.ty
-
-DoAdd(s, kind, inst) ==
-  LET tid == s.nt + 1
-      cb == s.nid
-      r == IF kind = "fixed" THEN AddFixed(s, inst, cb)
-           ELSE IF kind = "max" THEN AddMax(s, inst, cb) ELSE AddMin(s, inst, cb)
-      s1 == [r.s EXCEPT !.keys = @ @@ (tid :> r.key), !.nt = tid, !.nid = @ + 1]
-  IN Emit(s1, [e |-> "tadd", tid |-> tid, kind |-> kind, t |-> inst, item |-> cb, now |-> s.cnow])
-
-DoUpd(s, tid, inst) ==
-  LET k == s.keys[tid]
-      r == IF k.ty = "max" THEN ModMax(s, k, inst) ELSE ModMin(s, k, inst)
-  IN Emit(r.s, [e |-> "tupd", tid |-> tid, kind |-> k.ty, t |-> inst, res |-> r.res, now |-> s.cnow])
-
-DoDel(s, tid) ==
-  LET k == s.keys[tid]
-      r == IF k.ty = "fixed" THEN DelFixed(s, k)
-           ELSE IF k.ty = "fixedmax" THEN DelVar(s, k, "max") ELSE DelVar(s, k, k.ty)
-      cbs == IF k.ty = "fixed" THEN {e.cb : e \in QGet(s, k.g, k.slot)}
-             ELSE IF r.res THEN {e.cb : e \in QGet(s, Wt(s.var[k.slot + 1].curr), k.slot)} ELSE {}
-      s1 == Emit(r.s, [e |-> "tdelb", tid |-> tid])
-      s2 == IF r.res /\ cbs # {} THEN Emit(s1, [e |-> "drop", item |-> CHOOSE c \in cbs : TRUE, ran |-> FALSE]) ELSE s1
-  IN Emit(s2, [e |-> "tdel", tid |-> tid, kind |-> KindOfKey(k), res |-> r.res])
-
-DoAct(s, tid) ==
-  LET k == s.keys[tid] IN
-  Emit(s, [e |-> "tact", tid |-> tid, kind |-> k.ty, res |-> VarActive(s, k)])
-
-DoRun(s, inst) ==
-  LET adv == Lt(s.cnow, inst)
-      s0 == Emit(s, [e |-> "run", t |-> inst, idle |-> FALSE])
-      r == IF adv THEN AdvanceLoop([s0 EXCEPT !.cnow = inst], TFloor(inst), << >>) ELSE [s |-> s0, fired |-> << >>]
-      nowI == r.s.cnow
-      s1 == FoldSeq(LAMBDA cb, acc :
-                      Emit(Emit(Emit(acc, [e |-> "x", item |-> cb, now |-> nowI]), [e |-> "xe", item |-> cb]),
-                           [e |-> "drop", item |-> cb, ran |-> TRUE]),
-                    r.s, r.fired)
-  IN Emit(s1, [e |-> "runend", ret |-> FALSE, now |-> nowI])
 
 Fold(m, evs) ==
   FoldSeq(LAMBDA e, acc : LET r == Apply(acc.st, e) IN [st |-> r.st, bad |-> acc.bad \cup r.bad],
